@@ -11,6 +11,7 @@ import (
 	"encoding/json"
 	"errors"
 	"fmt"
+	"io"
 	"math/rand"
 	"mime/multipart"
 	"net/http"
@@ -59,6 +60,12 @@ type c13Case struct {
 	// group, 2 = the route.  All instances see the one request of the outer case.
 	Stack []*c13Case `json:"stack,omitempty"`
 	At    int        `json:"at,omitempty"`
+
+	// round 7: the state of the response when the middleware is entered.  Commit != 0: a middleware registered in
+	// front has already started the response with this status (CommitHow 0 WriteHeader, 1 Write of a byte, 2
+	// WriteHeader + Flush) and then calls next.
+	Commit    int `json:"commit,omitempty"`
+	CommitHow int `json:"commit_how,omitempty"`
 
 	// mode 2: the requests (Sub[0] also carries the configuration and the validator table) and, per request,
 	// the index of the validator call inside which it waits until the next request has been served (-1: never)
@@ -240,7 +247,7 @@ func c13RunBasic(c *c13Case) (res Result) {
 	if c.Ctor >= 2 {
 		validator = nil
 	}
-	ops := []string{"0", wInt(c.Ctor), wBool(c.skipped()), wStr(c.Realm), wStr(strconv.Quote(c.Realm))}
+	ops := []string{wInt(c.commitStatus()), "0", wInt(c.Ctor), wBool(c.skipped()), wStr(c.Realm), wStr(strconv.Quote(c.Realm))}
 	ops = append(ops, c13HeadOps(c13BasicRequest(c))...)
 	ops = append(ops, c13Table(c, true))
 	res.Ops = strings.Join(ops, " ")
@@ -271,7 +278,8 @@ func c13RunBasic(c *c13Case) (res Result) {
 		res.Tags = []string{"basic:nil-validator"}
 		return res
 	}
-	e.Use(mw)
+	e.Logger.SetOutput(io.Discard)
+	e.Use(c13Early(c), mw)
 	e.Any("/", func(ctx echo.Context) error {
 		ran = true
 		return ctx.NoContent(http.StatusOK)
@@ -294,7 +302,7 @@ func c13RunBasic(c *c13Case) (res Result) {
 		res.Tags = []string{"basic:panic"}
 		return res
 	}
-	wwwValue := rec.Header().Get("WWW-Authenticate")
+	wwwValue := c13WireHeader(c, rec, "WWW-Authenticate")
 	www := wwwValue != ""
 	obs := []string{wBool(ran), wInt(rec.Code), wBool(www), wInt(len(calls))}
 	for _, cl := range calls {
@@ -338,6 +346,9 @@ func c13RunBasic(c *c13Case) (res Result) {
 		res.Tags = append(res.Tags, "basic:method-"+c.Method)
 	}
 	c13DecoyTags(&res, req, "basic")
+	if c.Commit != 0 {
+		res.Tags = append(res.Tags, "basic:response-already-started")
+	}
 	if derived && !wellFormed {
 		res.Tags = append(res.Tags, "basic:separator-not-space")
 	}
@@ -407,6 +418,47 @@ func c13Decoys(r *rand.Rand, c *c13Case) {
 			add(d[0], d[1])
 		}
 	}
+}
+
+// c13Early: the middleware in front that has started the response already
+func c13Early(c *c13Case) echo.MiddlewareFunc {
+	return func(next echo.HandlerFunc) echo.HandlerFunc {
+		return func(ctx echo.Context) error {
+			if c.Commit != 0 {
+				switch c.CommitHow {
+				case 1:
+					_, _ = ctx.Response().Write([]byte("x"))
+				case 2:
+					ctx.Response().WriteHeader(c.commitStatus())
+					ctx.Response().Flush()
+				default:
+					ctx.Response().WriteHeader(c.commitStatus())
+				}
+			}
+			return next(ctx)
+		}
+	}
+}
+
+// the status that is on the wire when the middleware is entered (0: none)
+func (c *c13Case) commitStatus() int {
+	switch {
+	case c.Commit == 0:
+		return 0
+	case c.CommitHow == 1:
+		return http.StatusOK // implicit
+	case c.Commit < 200 || c.Commit > 599:
+		return http.StatusOK
+	}
+	return c.Commit
+}
+
+// what went over the wire: once the response has been started, later header changes are not sent
+func c13WireHeader(c *c13Case, rec *httptest.ResponseRecorder, name string) string {
+	if c.Commit != 0 {
+		return rec.Result().Header.Get(name)
+	}
+	return rec.Header().Get(name)
 }
 
 func c13DecoyTags(res *Result, req *http.Request, kind string) {
@@ -685,7 +737,7 @@ func c13RunKey(c *c13Case) (res Result) {
 	ehClass := 0
 	srcs, okCfg := c13Sources(c)
 
-	ops := []string{"1", wInt(c.Ctor), wBool(c.skipped()), wStr(c.Lookup), wStr(c.Scheme), wInt(c.EH), wBool(c.Cont), wInt(len(srcs))}
+	ops := []string{wInt(c.commitStatus()), "1", wInt(c.Ctor), wBool(c.skipped()), wStr(c.Lookup), wStr(c.Scheme), wInt(c.EH), wBool(c.Cont), wInt(len(srcs))}
 	located := make([][]c13Pair, len(srcs))
 	for i, s := range srcs {
 		located[i] = c13Located(c, s)
@@ -773,7 +825,8 @@ func c13RunKey(c *c13Case) (res Result) {
 		res.Tags = []string{"key:config-panic"}
 		return res
 	}
-	e.Use(mw)
+	e.Logger.SetOutput(io.Discard)
+	e.Use(c13Early(c), mw)
 	h := func(ctx echo.Context) error {
 		ran = true
 		return ctx.NoContent(http.StatusOK)
@@ -841,6 +894,9 @@ func c13RunKey(c *c13Case) (res Result) {
 		}
 	}
 	c13DecoyTags(&res, c13Request(c), "key")
+	if c.Commit != 0 {
+		res.Tags = append(res.Tags, "key:response-already-started")
+	}
 	if c.Method != "" {
 		res.Tags = append(res.Tags, "key:method-"+c.Method)
 	}
@@ -949,7 +1005,7 @@ func c13RunStack(c *c13Case) (res Result) {
 	srcsOf := make([][]c13Src, n)
 	locOf := make([][][]c13Pair, n)
 
-	ops := []string{"3", wInt(n)}
+	ops := []string{wInt(layers[0].commitStatus()), "3", wInt(n)}
 	cfgOK := true
 	for i, l := range layers {
 		if l.Mode == 0 {
@@ -1058,7 +1114,8 @@ func c13RunStack(c *c13Case) (res Result) {
 		res.Tags = append(res.Tags, "stack:config-panic")
 		return res
 	}
-	e.Use(useMW...)
+	e.Logger.SetOutput(io.Discard)
+	e.Use(append([]echo.MiddlewareFunc{c13Early(layers[0])}, useMW...)...)
 	h := func(ctx echo.Context) error {
 		ran = true
 		return ctx.NoContent(http.StatusOK)
@@ -1111,7 +1168,7 @@ func c13RunStack(c *c13Case) (res Result) {
 			}
 		}
 	}
-	obs = append(obs, wStr(rec.Header().Get("WWW-Authenticate")))
+	obs = append(obs, wStr(c13WireHeader(layers[0], rec, "WWW-Authenticate")))
 	res.Obs = strings.Join(obs, " ")
 
 	// ---- model-free oracle, instance by instance: each one is judged on the request AS SENT and on whether IT
@@ -1307,7 +1364,7 @@ func c13GenStack(r *rand.Rand) *c13Case {
 // string yields no extractor) and applies every extractor to the request inside a handler.
 func c13RunExtractors(c *c13Case) (res Result) {
 	srcs, okCfg := c13Sources(c)
-	ops := []string{"2", wStr(c.Lookup), wInt(len(srcs))}
+	ops := []string{"0", "2", wStr(c.Lookup), wInt(len(srcs))}
 	located := make([][]c13Pair, len(srcs))
 	for i, s := range srcs {
 		located[i] = c13Located(c, s)
@@ -1474,7 +1531,7 @@ func c13BasicOracle(c *c13Case, calls []c13Call, ran bool, code int) (oracle str
 		if wellFormed && c.lookup([]byte(du), []byte(dp)) == 1 {
 			fail(fmt.Sprintf("well-formed credentials (%q, %q) accepted by the validator did not reach the handler (status %d)", du, dp, code))
 		}
-		okStatus := code == 400 || code == 401
+		okStatus := code == 400 || code == 401 || c.Commit != 0 // a status already on the wire is not the middleware's
 		if len(calls) > 0 {
 			if out := c.lookup([]byte(calls[len(calls)-1].u), []byte(calls[len(calls)-1].p)); out >= 100 && code == out {
 				okStatus = true
@@ -1528,7 +1585,7 @@ func c13KeyOracle(c *c13Case, srcs []c13Src, located [][]c13Pair, calls []string
 		if firstAccepted != nil {
 			fail(fmt.Sprintf("key %q is present at a configured location and accepted by the validator, but the handler did not run (status %d)", *firstAccepted, code))
 		}
-		if c.EH == 0 && code != 400 && code != 401 {
+		if c.EH == 0 && code != 400 && code != 401 && c.Commit == 0 {
 			fromValidator := false
 			for _, k := range calls {
 				if out := c.lookup([]byte(k), nil); out >= 100 && out != 500 && out == code {
@@ -1593,6 +1650,9 @@ func c13Normalised(s string) []string {
 
 // how the case picks constructor and Skipper (shared by both middlewares)
 func c13GenEntry(r *rand.Rand, c *c13Case) {
+	if r.Intn(12) == 0 {
+		c.Commit, c.CommitHow = c13Pick(r, []int{200, 200, 202, 206, 404, 500}), r.Intn(3)
+	}
 	switch r.Intn(40) {
 	case 0, 1, 2, 3, 4, 5:
 		c.Ctor = 1
@@ -1826,6 +1886,12 @@ func c13GenKey(r *rand.Rand) *c13Case {
 		{"header:X-Api-Key:Key ", "header", "X-Api-Key", "Key "},
 		{"header:Authorization:Sk", "header", "Authorization", "Sk"},
 		{"header:authorization", "header", "authorization", ""},
+		// an explicit, EMPTY cut-prefix: nothing is cut, whatever the AuthScheme says
+		{"header:Authorization:", "header", "Authorization", ""},
+		{"header:Authorization:", "header", "Authorization", ""},
+		{"header:X-Api-Key:", "header", "X-Api-Key", ""},
+		{"header:Authorization::x", "header", "Authorization", ""},
+		{"header:authorization:", "header", "authorization", ""},
 		{"query:key", "query", "key", ""},
 		{"query:api_key", "query", "api_key", ""},
 		{"form:key", "form", "key", ""},
@@ -2327,6 +2393,16 @@ func c13Shrink(ci any) []any {
 		d.ErrValid = false
 		out = append(out, d)
 	}
+	if c.Commit != 0 {
+		d := c13Clone(c)
+		d.Commit, d.CommitHow = 0, 0
+		out = append(out, d)
+		if c.CommitHow != 0 {
+			d := c13Clone(c)
+			d.CommitHow = 0
+			out = append(out, d)
+		}
+	}
 	if c.Ctor != 0 {
 		d := c13Clone(c)
 		d.Ctor = 0
@@ -2429,7 +2505,7 @@ func c13Mutate(r *rand.Rand, ci any) []any {
 func init() {
 	register(&Prop{
 		ID:             "C13",
-		Rule:           "sequential cases (compared with the model): half BasicAuth, half KeyAuth; plus 1/8 as many overlapping streams (oracle only): ONE middleware instance, 2-3 requests with multi-value headers / several lookup sources, request i stops inside its k-th validator call (channels, no timing) until request i+1 has been served completely, every request judged on its own by the same oracle. Sequential cases: Basic: Authorization values assembled from scheme (casings, truncated, foreign, with U+017F / U+212A / invalid bytes) + separator (space, none, other) + payload (std base64 of user:password incl. empty parts, colons in the password, non-UTF-8; unpadded, URL alphabet, CR/LF inside, truncated, trailing garbage, foreign character, non-zero trailing bits, raw), 0-3 header lines, validator table keyed by credentials (the intended pair + near misses such as the split at the last colon) with outcomes true/false/error((false|true),err). Key: 1-3 lookup sources (header with scheme prefix / explicit cut prefix / none, query, form, cookie, param), 0-23 values per location with prefix variants; for form / query sources the REST of the body / query string is partly malformed (bad %-escapes, semicolons, duplicate and 3-7 KB fields, a malformed field under the looked-up name) in front of or behind the well-formed key, multipart/form-data bodies with mixed-case media types, extra parameters and odd boundaries, urlencoded media-type spellings, non-form media types, PUT/PATCH/DELETE/GET with a body, body combined with query string, ErrorHandler absent / returns nil / passes / returns HTTPError, ContinueOnIgnoredError. Non-trivial = the validator was called or the base64 text was rejected; distinct = distinct model op lines. Round 4: both middlewares through ...WithConfig or the convenience constructors BasicAuth(fn) / KeyAuth(fn) (rarely with a nil validator: constructor panic), default or custom Skipper (skips the requests carrying a marker header, also inside the overlapping streams), request methods incl. OPTIONS / HEAD / TRACE / PROPFIND; Basic: user / password with CR, LF, blanks, NUL, NBSP, quotes, %20 at their borders, validator table holding every normalised reading (trimmed, lower-cased, unescaped) mostly as acceptable, the WWW-Authenticate challenge compared for default / custom realms; Key: route with 22 path parameters (looked-up name at indices 0, 5, 18-21), the key at popular locations that are NOT configured (query access_token / token / key / api_key, headers X-Api-Key / X-Auth-Token / Proxy-Authorization, cookies, form fields), ErrKeyAuthMissing unwrapped inside the ErrorHandler; round 5: 1/6 as many cases with 2-3 instances on the path of ONE request (e.Use + group + route level): BasicAuth twice / three times, KeyAuth behind BasicAuth on the same Authorization header (cut-prefix `Basic `), KeyAuth twice with the sources reordered or narrowed, BasicAuth behind KeyAuth, inner validators that mostly accept what the outer one accepts, per-instance Skipper / ErrorHandler / constructor; a pass-through marker behind every instance tells whether it passed the request on, and each instance is judged by the unchanged oracle on the request AS SENT (accepted well-formed credentials must pass THIS instance; its validator calls must be literal; an instance that was not reached must not have been asked); round 6: 1/3 of the Basic and Key requests carry decoy headers (the complete shape of a CORS preflight: OPTIONS + Access-Control-Request-Method + Origin; of a websocket upgrade; X-Requested-With, X-Forwarded-*, X-Forwarded-User, Remote-User, X-Http-Method-Override, probe User-Agents, Sec-Fetch-*), the whole request head is the BasicAuth model's input; for query / form sources the looked-up pairs are spelled non-canonically in 1/3 of the cases (percent-encoded letters in the NAME, upper / lower hex, `%20` vs `+`, bare name for an empty value, raw values), cookie values quoted; KeyAuth stacks whose instances differ only in AuthScheme (one Authorization line per scheme); Mutate hook (validator accepting / refusing everything) for the failing-input search; plus 1/10 as many cases through the exported CreateExtractors(lookups) (no defaults, empty string, malformed strings), every extractor applied to the request inside a handler",
+		Rule:           "sequential cases (compared with the model): half BasicAuth, half KeyAuth; plus 1/8 as many overlapping streams (oracle only): ONE middleware instance, 2-3 requests with multi-value headers / several lookup sources, request i stops inside its k-th validator call (channels, no timing) until request i+1 has been served completely, every request judged on its own by the same oracle. Sequential cases: Basic: Authorization values assembled from scheme (casings, truncated, foreign, with U+017F / U+212A / invalid bytes) + separator (space, none, other) + payload (std base64 of user:password incl. empty parts, colons in the password, non-UTF-8; unpadded, URL alphabet, CR/LF inside, truncated, trailing garbage, foreign character, non-zero trailing bits, raw), 0-3 header lines, validator table keyed by credentials (the intended pair + near misses such as the split at the last colon) with outcomes true/false/error((false|true),err). Key: 1-3 lookup sources (header with scheme prefix / explicit cut prefix / none, query, form, cookie, param), 0-23 values per location with prefix variants; for form / query sources the REST of the body / query string is partly malformed (bad %-escapes, semicolons, duplicate and 3-7 KB fields, a malformed field under the looked-up name) in front of or behind the well-formed key, multipart/form-data bodies with mixed-case media types, extra parameters and odd boundaries, urlencoded media-type spellings, non-form media types, PUT/PATCH/DELETE/GET with a body, body combined with query string, ErrorHandler absent / returns nil / passes / returns HTTPError, ContinueOnIgnoredError. Non-trivial = the validator was called or the base64 text was rejected; distinct = distinct model op lines. Round 4: both middlewares through ...WithConfig or the convenience constructors BasicAuth(fn) / KeyAuth(fn) (rarely with a nil validator: constructor panic), default or custom Skipper (skips the requests carrying a marker header, also inside the overlapping streams), request methods incl. OPTIONS / HEAD / TRACE / PROPFIND; Basic: user / password with CR, LF, blanks, NUL, NBSP, quotes, %20 at their borders, validator table holding every normalised reading (trimmed, lower-cased, unescaped) mostly as acceptable, the WWW-Authenticate challenge compared for default / custom realms; Key: route with 22 path parameters (looked-up name at indices 0, 5, 18-21), the key at popular locations that are NOT configured (query access_token / token / key / api_key, headers X-Api-Key / X-Auth-Token / Proxy-Authorization, cookies, form fields), ErrKeyAuthMissing unwrapped inside the ErrorHandler; round 5: 1/6 as many cases with 2-3 instances on the path of ONE request (e.Use + group + route level): BasicAuth twice / three times, KeyAuth behind BasicAuth on the same Authorization header (cut-prefix `Basic `), KeyAuth twice with the sources reordered or narrowed, BasicAuth behind KeyAuth, inner validators that mostly accept what the outer one accepts, per-instance Skipper / ErrorHandler / constructor; a pass-through marker behind every instance tells whether it passed the request on, and each instance is judged by the unchanged oracle on the request AS SENT (accepted well-formed credentials must pass THIS instance; its validator calls must be literal; an instance that was not reached must not have been asked); round 6: 1/3 of the Basic and Key requests carry decoy headers (the complete shape of a CORS preflight: OPTIONS + Access-Control-Request-Method + Origin; of a websocket upgrade; X-Requested-With, X-Forwarded-*, X-Forwarded-User, Remote-User, X-Http-Method-Override, probe User-Agents, Sec-Fetch-*), the whole request head is the BasicAuth model's input; for query / form sources the looked-up pairs are spelled non-canonically in 1/3 of the cases (percent-encoded letters in the NAME, upper / lower hex, `%20` vs `+`, bare name for an empty value, raw values), cookie values quoted; KeyAuth stacks whose instances differ only in AuthScheme (one Authorization line per scheme); Mutate hook (validator accepting / refusing everything) for the failing-input search; round 7: lookups with an explicit EMPTY cut-prefix (`header:Authorization:`, `header:X-Api-Key:`, `header:Authorization::x`, lower-case name) crossed with every AuthScheme; for 1/12 of the requests a middleware in front has already started the response (WriteHeader / Write / WriteHeader+Flush, 200 / 202 / 206 / 404 / 500) before the auth middleware runs; plus 1/10 as many cases through the exported CreateExtractors(lookups) (no defaults, empty string, malformed strings), every extractor applied to the request inside a handler",
 		New:            func() any { return &c13Case{} },
 		Gen:            c13Gen,
 		Run:            c13Run,
